@@ -47,8 +47,24 @@ func refParse(x []byte) *txtar.Archive {
 	return a
 }
 
+// sampleExtras: during the exhaustive enumeration the argument-intact and result-stability checks (which triple the cost
+// of a case) run on one string in 16, chosen by a hash of the string; everywhere else they always run.
+var sampleExtras atomic.Bool
+
+func extrasFor(b []byte) bool {
+	if !sampleExtras.Load() {
+		return true
+	}
+	h := uint32(2166136261)
+	for _, x := range b {
+		h = (h ^ uint32(x)) * 16777619
+	}
+	return h%16 == 0
+}
+
 func checkBody(c bodyCase) *vt.Fail {
 	body := []byte(c.Body)
+	extras := extrasFor(body)
 	cp := func() []byte { return append([]byte(nil), body...) }
 	r1 := txtarref.HasMarkerLine(body)
 	// reference consistency (harness self-check): R1 == parser effect under the reference definition
@@ -60,8 +76,17 @@ func checkBody(c bodyCase) *vt.Fail {
 		return vt.Failf("HARNESS-r1-vs-refparse", "line-scan reference says marker=%v but reference parser effect says %v", r1, r2)
 	}
 	var nq bool
-	if f := vt.Guard("needsquote-panic", func() *vt.Fail { nq = txtar.NeedsQuote(cp()); return nil }); f != nil {
+	arg, intact := body, func() bool { return true }
+	if extras {
+		arg, intact = vt.WithSpare(body)
+	} else {
+		arg = cp()
+	}
+	if f := vt.Guard("needsquote-panic", func() *vt.Fail { nq = txtar.NeedsQuote(arg); return nil }); f != nil {
 		return f
+	}
+	if !intact() {
+		return vt.Failf("argument-modified", "NeedsQuote(%q) modified its argument or the memory behind it", body)
 	}
 	if nq != r1 {
 		return vt.Failf("needsquote-inexact", "NeedsQuote(%q) = %v but the body %s a file marker line", body, nq, map[bool]string{true: "contains", false: "does not contain"}[r1])
@@ -76,16 +101,44 @@ func checkBody(c bodyCase) *vt.Fail {
 	// Quote / Unquote
 	var q []byte
 	var qerr error
-	if f := vt.Guard("quote-panic", func() *vt.Fail { q, qerr = txtar.Quote(cp()); return nil }); f != nil {
+	if extras {
+		arg, intact = vt.WithSpare(body)
+	} else {
+		arg = cp()
+	}
+	if f := vt.Guard("quote-panic", func() *vt.Fail { q, qerr = txtar.Quote(arg); return nil }); f != nil {
 		return f
+	}
+	if !intact() {
+		return vt.Failf("argument-modified", "Quote(%q) modified its argument or the memory behind it", body)
 	}
 	if qerr != nil {
 		return nil // refusal is allowed
 	}
 	var u []byte
 	var uerr error
-	if f := vt.Guard("unquote-panic", func() *vt.Fail { u, uerr = txtar.Unquote(append([]byte(nil), q...)); return nil }); f != nil {
+	if extras {
+		if f := vt.Stable(func() string { return fmt.Sprintf("Quote(%q)", body) }, q, func() {
+			txtar.Quote([]byte("-- other --\nsome other\n-- body --\n"))
+			txtar.Quote([]byte("refused: no final newline"))
+		}); f != nil {
+			return f
+		}
+	}
+	qarg, qintact := append([]byte(nil), q...), func() bool { return true }
+	if extras {
+		qarg, qintact = vt.WithSpare(q)
+	}
+	if f := vt.Guard("unquote-panic", func() *vt.Fail { u, uerr = txtar.Unquote(qarg); return nil }); f != nil {
 		return f
+	}
+	if !qintact() {
+		return vt.Failf("argument-modified", "Unquote(%q) modified its argument or the memory behind it", q)
+	}
+	if extras {
+		if f := vt.Stable(func() string { return fmt.Sprintf("Unquote(%q)", q) }, u, func() { txtar.Unquote([]byte(">-- other --\n>quoted text\n")) }); f != nil {
+			return f
+		}
 	}
 	if uerr != nil || !bytes.Equal(u, body) {
 		return vt.Failf("quote-unquote-not-inverse", "Quote(%q) = %q but Unquote of that = %q, %v", body, q, u, uerr)
@@ -142,6 +195,8 @@ func TestExhaustive(t *testing.T) {
 		maxLen = 11
 	}
 	var nt, viol, lastUnterm, lastTerm int64
+	sampleExtras.Store(true)
+	defer sampleExtras.Store(false)
 	total := txtarref.Enum(alphabet, maxLen, vt.Shard(), vt.NShards(), func(w int, s []byte) {
 		if atomic.LoadInt64(&viol) > 5 {
 			return
